@@ -72,7 +72,8 @@ def scalar_alphabet(t, cfg: Cfg) -> list:
             return named[:1] + [combo] + named[1:] + rest
         return named[:1] + rest[:1] + named[1:] + rest[1:]
     if isinstance(t, TPtr):
-        return int_alphabet(cfg.ptr.size, False)
+        # small (in-range) addresses first so that dereferencing has a target; then the boundary values
+        return [9, 0, 3] + [v for v in int_alphabet(cfg.ptr.size, False) if v not in (9, 0, 3)]
     raise TypeError(t)
 
 
